@@ -56,14 +56,15 @@ type tcase struct {
 	Actions   []action `json:"actions"`
 	IP        string   `json:"ip"`
 	// observations
-	Port     int     `json:"port"`
-	Obs      int     `json:"obs"`
-	Err      string  `json:"err"`
-	DurMS    float64 `json:"dur_ms"`
-	Greet    []int   `json:"greet"` // nil: the peer did not look
-	Rec      *rec    `json:"rec"`
-	JitterMS float64 `json:"jitter_ms"` // largest scheduling overshoot of a 5 ms sleep while the case ran
-	Tries    int     `json:"tries"`
+	Port        int     `json:"port"`
+	Obs         int     `json:"obs"`
+	Err         string  `json:"err"`
+	DurMS       float64 `json:"dur_ms"`
+	Greet       []int   `json:"greet"` // nil: the peer did not look
+	Rec         *rec    `json:"rec"`
+	JitterMS    float64 `json:"jitter_ms"`    // largest scheduling overshoot of a 5 ms sleep while the case ran
+	CPUSlowdown float64 `json:"cpu_slowdown"` // wall / CPU time of a 2 ms burn: 1.0 when quiet (see jitter.go)
+	Tries       int     `json:"tries"`
 	// end-to-end: run this sx binary (`sx socks -p PORT IP --json -t <tdata>ms`) instead of calling Scan;
 	// obs is then 0 (a record was printed) or 1 (none), tdial is ignored (the CLI has one --timeout)
 	E2E    string `json:"e2e,omitempty"`
@@ -349,7 +350,7 @@ var (
 func runCase(c *tcase) {
 	startJitterMonitor()
 	caseStart := time.Now()
-	defer func() { c.JitterMS = jitterBetween(caseStart, time.Now()) }()
+	defer func() { c.JitterMS, c.CPUSlowdown = loadBetween(caseStart, time.Now()) }()
 	c.Tries++
 	c.Greet, c.Rec, c.Err = nil, nil, ""
 	ip := net.ParseIP(c.IP)
